@@ -474,7 +474,7 @@ def replay_real(case, model, expect):
         return False, nat, conc
     if expect['ok']:
         agrees = expect['text'] == nat['text']
-        if agrees and expect.get('origins') is not None:
+        if agrees and expect.get('origins') is not None and nat.get('origins') is not None:
             agrees = expect['origins'] == nat['origins']
         return agrees, nat, conc
     return expect['error'].get('variant') == nat['error'].get('variant'), nat, conc
